@@ -165,6 +165,22 @@ for _ch in ('stdout', 'stderr'):
             PROGRAM_MATRIX.append(_name)
 # text sources that may also be nested as the -stdin of a program
 NESTABLE_TEXT_SOURCES = tuple(n for n in T if n not in PROGRAM_MATRIX)
+STANDARD_TEXT_SOURCES = tuple(T)  # what the "one scenario per kind of text source" loops iterate over
+
+# the output of a program as ONE PART of a multi-part stdin (single-line, hence nestable): the four implementations
+# that run the program of a program-output text source
+GENERATOR_VARIANTS = ('program', 'program-stderr', 'program-stdout-ign', 'program-stderr-ign')
+T['program-stderr'] = ('-stderr-from % gen g1 @[S0]@', [C(GEN_ERR)], ([[C('gen')], [C('g1')], [S(0)]], None))
+T['program-stdout-ign'] = ('-stdout-from -ignore-exit-code % gen g1 @[S0]@', [C(GEN_OUT)],
+                           ([[C('gen')], [C('g1')], [S(0)]], None, 'gen-ign'))
+T['program-stderr-ign'] = ('-stderr-from -ignore-exit-code % gen g1 @[S0]@', [C(GEN_ERR)],
+                           ([[C('gen')], [C('g1')], [S(0)]], None, 'gen-ign'))
+
+
+def here_doc(lines: Sequence[str]) -> Tuple[str, list]:
+    """(source text, value) of a here-document with the given body lines: the value is the lines, each terminated
+    by a new-line, exactly as written (symbol references substituted)"""
+    return '<<EOF\n' + ''.join(l + '\n' for l in lines) + 'EOF', ''.join(l + '\n' for l in lines)
 # sources whose value can be taken without a file system / a process (kernel K2)
 PURE_TEXT_SOURCES = ('string', 'string-sq', 'empty', 'sym', 'sym3', 'here-doc')
 
